@@ -299,6 +299,10 @@ impl Handler for SchedHandler {
                 if s.ptoken[t] {
                     s.ptoken[t] = false;
                     res = 1;
+                } else if s.spur > 0 {
+                    // spurious wake-up: park returns although nobody unparked this thread
+                    s.spur -= 1;
+                    res = 0;
                 } else {
                     s.state[t] = TS::Parked;
                     yield_blocked(s, t);
